@@ -1300,6 +1300,45 @@ def raii_token_moves(ctx, rid, files, floor=0):
         ctx.ob(rid, ok, "%s:%d" % (short(r.file), r.line), "%s: the defaulted move leaves the source unable to release again" % r.name,
                "" if ok else "destructor of %s gives something back guarded by %s, which the defaulted move copies without clearing: "
                "a moved-from object releases a second time" % (r.name, sticky), inst=r.qname)
+    # user-provided move ASSIGNMENT of such a class: the target may itself still hold something; it has to give that back
+    # (the way its destructor would) before it takes over the source's state - or swap with the source
+    for r in ctx.fb.records():
+        if r.dependent or not any(r.file.endswith("/" + x) for x in files):
+            continue
+        ms = r.d.get("methods", [])
+        dt = [m for m in ms if m.get("kind") == "dtor" and m.get("user_provided")]
+        ma = [m for m in ms if m.get("move_assign") and m.get("user_provided") and not m.get("deleted")]
+        if not dt or not ma:
+            continue
+        fdt = [f for f in ctx.fb.functions(rec=r.tmpl or r.qname) if f.kind == "dtor" and f.recq == r.qname]
+        fma = [f for f in ctx.fb.functions(rec=r.tmpl or r.qname) if f.recq == r.qname and f.id == ma[0].get("id")]
+        if not fdt or not fma:
+            continue
+
+        def releases(g):
+            out = set()
+            for st in g.stmts.values():
+                if st["k"] in ("CXXMemberCallExpr", "CallExpr"):
+                    c = st.get("callee") or {}
+                    if c.get("inrepo") or c.get("name") in ("unlock", "deallocate", "reset", "notify_all"):
+                        out.add(c.get("name"))
+            from .engine import atomic_ops as _ao
+            if any(op["op"] in ("store", "rmw", "cas") for op in _ao(g)):
+                out.add("<atomic write>")
+            return out
+        want = releases(fdt[0])
+        if not want:
+            continue
+        for g in fma:
+            have = releases(g)
+            swaps = any(st["k"] == "CallExpr" and callee_fq(st) in ("std::swap",) for st in g.stmts.values()) or \
+                any(st["k"] == "CXXMemberCallExpr" and (st.get("callee") or {}).get("name") == "swap" for st in g.stmts.values())
+            ok = bool(want & have) or swaps
+            n += 1
+            ctx.ob(rid, ok, g.where, "%s: move assignment gives back what the target still holds before taking over the source" % r.name,
+                   "" if ok else "the destructor releases through %s; the move assignment overwrites the members that decide about "
+                   "that release without doing the same first: what the assigned-to object held is never given back"
+                   % sorted(want), fn=g.label, inst=g.qname)
     return n
 
 
